@@ -49,6 +49,13 @@ extern "C" void __sanitizer_print_stack_trace(void);
 
 namespace sim {
 
+// violations noticed inside wrapped calls (C frames on the stack: cannot throw there); drivers poll after API calls
+static std::string g_pending_clause, g_pending_detail;
+void set_pending_violation(const char* clause, const char* detail) { if (g_pending_clause.empty()) { g_pending_clause = clause; g_pending_detail = detail; } }
+void check_pending_violation() { if (!g_pending_clause.empty()) { std::string c = g_pending_clause, d = g_pending_detail; g_pending_clause.clear(); g_pending_detail.clear(); fail(c, d); } }
+
+static std::unordered_map<void*, int>* g_dctx_busy;   // ZSTD contexts currently inside a decompress call
+
 Disk D;
 SinkPlan sinkplan;
 SrcPlan srcplan;
@@ -276,6 +283,7 @@ static void recompute_next_event() {
 }
 
 ApiScope::ApiScope(const char* n) : name(n) {
+    heartbeat();
     if (tl_api_depth++ == 0) {
         g_cur_api = n; g_api_seq++;
         t0 = g_api_t0 = g_ticks; granted0 = g_api_g0 = alloc.granted_bytes;
@@ -322,6 +330,7 @@ void set_focus(int64_t a, int64_t b) {
     static bool installed = false;
     if (!installed) { __sanitizer_set_death_callback(print_focus); installed = true; }
     g_focus_a = a; g_focus_b = b;
+    heartbeat();
 }
 
 void set_next_preempt_tick(uint64_t t) { g_next_preempt_tick = t; recompute_next_event(); }
@@ -329,13 +338,17 @@ void set_next_preempt_tick(uint64_t t) { g_next_preempt_tick = t; recompute_next
 static void tick_slow() {
     if (g_tick_limit && g_ticks >= g_tick_limit) {
         // budget depends on memory granted during the call: re-evaluate before declaring a hang
-        uint64_t lim = g_api_t0 + g_budget_base + g_budget_c1 * (alloc.granted_bytes - g_api_g0);
+        // work may legitimately be proportional to memory the library was granted for this handle in an EARLIER call
+        // (decode buffers are reused), so the allowance counts everything granted since the fault plans were last
+        // reset plus what is live now - still bounded by the allocator caps
+        uint64_t lim = g_api_t0 + g_budget_base + g_budget_c1 * (alloc.granted_bytes + alloc.live_bytes);
         if (g_ticks >= lim) {
             char msg[256];
             int n = snprintf(msg, sizeof msg, "SIM-HANG api=%s ticks=%llu budget=%llu\n", g_cur_api,
                              (unsigned long long)(g_ticks - g_api_t0), (unsigned long long)(lim - g_api_t0));
             if (write(2, msg, (size_t)n) < 0) {}
             print_focus();
+            if (L.keep) __sanitizer_print_stack_trace();      // verbose replay: where the budget ran out
             _exit(EXIT_HANG);
         }
         g_tick_limit = lim; recompute_next_event();
@@ -362,6 +375,8 @@ void world_reset() {
     g_zstd_dctx_calls = 0;
     g_cur_api = "";
     g_focus_a = g_focus_b = -1;
+    g_pending_clause.clear(); g_pending_detail.clear();
+    if (g_dctx_busy) g_dctx_busy->clear();
 }
 
 // between the fault points of an enumeration: fresh plans and counters, same disk
@@ -381,6 +396,7 @@ void reset_fault_plans() {
 }
 
 void world_check_closed() {
+    check_pending_violation();
     SIM_CHECK(io.open_streams == 0, "resource.stream_left_open", "%d simulated streams still open", io.open_streams);
     SIM_CHECK(io.open_fds == 0, "resource.fd_left_open", "%d simulated fds still open", io.open_fds);
     SIM_CHECK(io.live_maps == 0, "resource.mapping_left", "%d simulated mappings still mapped", io.live_maps);
@@ -644,10 +660,19 @@ void* __wrap_aligned_alloc(size_t align, size_t size) {
     return tracked_alloc(size, false);
 }
 
+// A ZSTD_DCtx must not be used by two threads at once. The real call is atomic under the serialising scheduler
+// (zstd is not instrumented), so non-atomicity is simulated here: mark the context busy, offer a context switch,
+// and a second task entering with the same context while it is busy is a concurrent use.
 size_t __wrap_ZSTD_decompressDCtx(void* ctx, void* dst, size_t cap, const void* src, size_t n) {
+    if (!g_dctx_busy) g_dctx_busy = new std::unordered_map<void*, int>();
+    int& busy = (*g_dctx_busy)[ctx];
+    if (busy > 0) { set_pending_violation("zstd_context_shared", "one ZSTD decompression context is used by two tasks at the same time"); }
+    busy++;
+    if (g_sched_active) yield_point(SITE_IO);
     tl_lifetime++;                       // the context may grow its own workspace
     size_t r = __real_ZSTD_decompressDCtx(ctx, dst, cap, src, n);
     tl_lifetime--;
+    (*g_dctx_busy)[ctx]--;
     return r;
 }
 
